@@ -300,6 +300,9 @@ def main(argv=None):
     # ---- replay files --------------------------------------------------------------------
     rdir = os.path.join(EVID, "replay", pid)
     os.makedirs(rdir, exist_ok=True)
+    for f in os.listdir(rdir):            # witnesses of earlier runs of this tier are stale
+        if f.startswith("%s_%s_" % (pid, a.tier)):
+            os.remove(os.path.join(rdir, f))
     replay_paths = []
     by_mech = collections.Counter()
     for c, v in viols:
